@@ -184,3 +184,11 @@ EXTRA7 = {
 }
 for _i, _t in EXTRA7.items():
     CHECKS[_i]["text"] += _t
+EXTRA8 = {
+ "C03": " Eighth round: sub-check histories (reference-valued expressions - pointers, slices, maps made by & * index slice member call ?: ?? - kept in ten statement positions, written through and read back; minimal and fully parenthesised spelling compared on the store and on the value read through).",
+ "C05": " Eighth round: sub-check repeat (string * n with counts from the whole int64 range against empty-valued strings, affordable products, zero and negative counts; strings.Repeat is the reference).",
+ "C08": " Eighth round: sub-check forin_nan (for-in over script-built and host-bound maps with entries under NaN-containing keys: every entry is visited once whatever the body deletes, breaks or returns).",
+ "C12": " Eighth round: external lookups that answer with a nil error and a value that cannot be handed out count as a miss; sub-check lookups (scripted histories around scopes that carry a lookup).",
+}
+for _i, _t in EXTRA8.items():
+    CHECKS[_i]["text"] += _t
